@@ -318,7 +318,7 @@ var failClasses = []failClass{
 		edKey := func() map[string]interface{} {
 			return gen.DocKey(h.r, "key1", gen.TEd2018, []string{"authentication"}, "jwk")
 		}
-		switch h.r.Intn(20) {
+		switch h.r.Intn(26) {
 		case 0:
 			bad = gen.RandDocKey(h.r, "key1")
 			bad["extra"] = true
@@ -376,6 +376,29 @@ var failClasses = []failClass{
 		case 19:
 			bad = edKey()
 			bad[""] = 1
+		case 20:
+			// every operation of an ietf-json-patch is checked, also the ones after a move / copy
+			if h.hasIETF {
+				badPatch = gen.PJSON(map[string]interface{}{"op": "add", "path": "/note", "value": 1}, map[string]interface{}{"op": fw.Pick(h.r, []string{"copy", "move"}), "from": "/note", "path": "/note2"},
+					map[string]interface{}{"op": "remove", "path": fw.Pick(h.r, []string{"/publicKey/0", "/service", "/publicKey"})})
+			}
+		case 21:
+			if h.hasIETF {
+				badPatch = gen.PJSON(map[string]interface{}{"op": "copy", "from": fw.Pick(h.r, []string{"/publicKey/0", "/service/0/serviceEndpoint", "/publicKey", "not-a-pointer"}), "path": "/stolen"})
+			}
+		case 22:
+			// the same URI twice, in a spelling URI libraries re-spell
+			u := fw.Pick(h.r, []string{"https://m\u00fcnchen.example/profile/jos\u00e9", "https://example.com/my profile", "HTTPS://Example.com/x", "did:example:bob"})
+			badPatch = gen.PAddAka("https://ok.example", u, u)
+		case 23:
+			bad = edKey()
+			bad["publicKeyJwk"] = map[string]interface{}{"kty": "OKP", "x": oracle.B64(h.r.Bytes(32))} // no curve
+		case 24:
+			bad = edKey()
+			bad["id"] = ""
+			bad["publicKeyJwk"].(map[string]interface{})["kid"] = "key1" // an id elsewhere does not replace the key's own id
+		case 25:
+			badPatch = map[string]interface{}{"action": "replace", "document": map[string]interface{}{"publicKeys": []interface{}{edKey()}, fw.Pick(h.r, []string{"id", "@context", "controller", "alsoKnownAs"}): nil}}
 		}
 		if badPatch == nil {
 			badPatch = gen.PAddKeys(bad)
@@ -648,7 +671,9 @@ func histPatches(h *histCtx, doc map[string]interface{}) []interface{} {
 				// astral), names related by prefix, numbers beyond 2^53 / 2^63, exponents, characters encoding/json escapes
 				map[string]interface{}{"\uff21": 1, "\U0001F600": 2, "\ue000": 3, "\ud7ff": 4, "a": 5, "ab": 6, "": 7},
 				map[string]interface{}{"big": 9223372036854775808.0, "bigger": 1e20, "huge": 1e21, "tiny": 1e-7, "odd": 9007199254740993.0, "neg": -2.5e-8},
-				"<a&b>\u2028\u2029 \u007f \u00e9 \\u0041", []interface{}{nil, []interface{}{}, map[string]interface{}{}, -0.0}})
+				"<a&b>\u2028\u2029 \u007f \u00e9 \\u0041", []interface{}{nil, []interface{}{}, map[string]interface{}{}, -0.0},
+				// one string holding both a character that JSON encoders escape and characters outside the BMP
+				"q\"uote \U0001F600 new\nline \U00010000 & \U0010FFFF", map[string]interface{}{"na\"me\U0001F600": "v\\\U0001F601", "neg": -2.5e-7, "negbig": -1e21, "neglong": -1500000000000.0}})
 			out = append(out, gen.PJSON(map[string]interface{}{"op": "add", "path": "/" + name, "value": val}))
 			continue
 		}
